@@ -311,7 +311,45 @@ def reader_check(ctx, prop):
             yield ("runs", {"prop": prop, "S": S.hex(), "recipe": [], "plan": plans(prop, rng, S, False), "conf": 1 if prop == "C07" else 0,
                             "streamkind": ("min", "bytesio", "pipe", "sock")[k % (4 if prop != "C06" else 3)]})
 
+    def gen_pair():
+        """two readers over unrelated streams used by one thread call by call in turn (the other one raises its errors to its caller,
+        who carries on): what a reader returns is a function of its own stream.  Streams: frames that lost their first byte
+        ("headless"), preamble pairs in front of frames, ordinary mixtures - each in both roles"""
+        simple = [x[0] for x in pool if len(x[0]) < 80][:16]
+        if len(simple) < 6:
+            return
+        headless = b"".join(f[1:] for f in simple[:6])
+        mixed = simple[0][1:] + simple[1] + simple[2][1:] + simple[3][2:] + simple[4]
+        pairs = b"".join(pp + f for pp, f in zip((b"\xd3\xb5", b"\xb5\xb5", b"\x24\x24", b"\xb5\x24", b"\xd3\x24", b"\x24\xd3", b"\xd3\xd3"), simple[6:13])) + b"\xd3\xb5"
+        pairs2 = b"".join(pp + f[1:] for pp, f in zip((b"\xd3", b"\xb5", b"\x24", b"\xd3", b"\xb5"), simple[3:8]))
+        plain = b"".join(simple[8:14])
+        for k, (a, b) in enumerate(((headless, pairs), (pairs, headless), (mixed, pairs), (pairs, mixed), (pairs2, pairs), (pairs, pairs2), (plain, pairs), (pairs, plain),
+                                    (headless, pairs2), (pairs2, headless), (plain, plain[::-1]))):
+            yield ("runs", {"prop": prop, "S": a.hex(), "companion": b.hex(), "recipe": [], "plan": plans(prop, rng, a, False), "conf": 0,
+                            "streamkind": ("min", "bytesio")[k % 2]})
+
+    def gen_long9():
+        """C09 on long runs: more than a thousand consecutive well-formed frames of a protocol the mask filters out, cut at a few places"""
+        from ..common import frame as _frame
+
+        n = 3000 if big else 1200
+        u1, u2 = _frame(0x05, 0x01, b"\x06\x01"), _frame(0x01, 0x03, bytes(16))
+        nm = st.nmea_line("GNGLL,5327.04319,N,00214.41396,W,223232.00,A,A")
+        rt = st.rtcm_frame(b"\x3e\xd0\x00")
+        for k, (parts, filts) in enumerate((([u1] + [nm] * n + [u2, nm, u1], (2, 6, 4)), ([nm] + [u1] * n + [rt, nm], (1, 5, 4)), ([u1] + [rt] * n + [u2, nm], (1, 3, 2)))):
+            S = b"".join(parts)
+            head = len(parts[0])
+            for f in filts[: (3 if big else 2)]:
+                cuts = [len(S), len(S) - 1, len(S) - len(parts[-1]), len(S) - len(parts[-1]) - len(parts[-2]) - 3, head + (len(S) - head) // 2, head]
+                q = (k + f) % 2
+                yield ("runs", {"prop": prop, "S": S.hex(), "recipe": [], "conf": 0, "streamkind": ("min", "bytesio")[k % 2],
+                                "plan": [{"filter": f, "quit": q, "parsing": 1, "handler": 1}] + [{"filter": f, "quit": q, "parsing": 1, "cut": c, "handler": 1} for c in cuts]})
+
     neg = negfn_for(prop)
+    if prop in ("C07", "C11"):
+        run_batch(ctx, MODULE, CFG, gen_pair(), st.OBSERVERS, sigfn, neg, chunk=40, neg_every=5)
+    if prop == "C09":
+        run_batch(ctx, MODULE, CFG, gen_long9(), st.OBSERVERS, sigfn, neg, chunk=2, neg_every=2)
     if prop == "C06":
         run_batch(ctx, MODULE, CFG, gen_library(), st.OBSERVERS, sigfn, neg, chunk=8000)
     if alpha_len:
